@@ -36,6 +36,11 @@ fn number(feat: bool) -> BoxedStrategy<(String, &'static str)> {
         1 => (-50i32..=50).prop_map(|v| (format!("{v}."), "num.trailing-dot")),
         1 => (1i32..=20, -2i32..=2).prop_map(|(m, e)| (format!("{m}e{e}"), "num.exponent")),
         1 => (1i32..=20, 0i32..=2).prop_map(|(m, e)| (format!("{m}.5E+{e}"), "num.exponent")),
+        // more decimals than the output keeps: the value rounds to a whole number (ending in 0 or not), or to 3 decimals
+        1 => (1i32..=40, prop_oneof![Just("0001"), Just("0004"), Just("9996"), Just("12345"), Just("00049")], any::<bool>()).prop_map(|(v, f, tens)| {
+            let whole = if tens { v * 10 } else { v };
+            (if f == "9996" { format!("{}.{f}", whole - 1) } else { format!("{whole}.{f}") }, "num.many-decimals")
+        }),
     ]
     .boxed()
 }
@@ -769,7 +774,7 @@ impl Property for C04 {
                 }
             }
             let clause = clause.split('@').next().unwrap_or(clause);
-            const ORDER: &[&str] = &["root.single-dimension", "shape.whitespace-content", "animate.begin-end", "use.unit-sized-target", "use.percent-position", "geom.omitted-coordinate", "geom.percent-coordinate", "ref.none", "use.dotted-id", "text.xy-list", "text.xy-length", "transform.space-before-paren", "root.attrs", "use.external-href", "use.xlink-href", "use.circle-target", "use.symbol", "href.xlink", "path.compact-arc-flags", "list.sign-separated", "transform.no-separator", "num.exponent", "num.plus-sign", "num.leading-dot", "num.trailing-dot", "text.textPath", "text.tspan-mixed", "text.tspans", "text.dx-list", "foreignObject", "nested-svg", "switch", "animate-child", "style.cdata", "line.omitted-coordinates", "rect.corner-radius", "length.unit-with-number-forms", "length.unit", "length.percent", "path.arcs", "path.curves", "attr.path", "attr.points", "attr.transform"];
+            const ORDER: &[&str] = &["root.single-dimension", "shape.whitespace-content", "animate.begin-end", "use.unit-sized-target", "use.percent-position", "geom.omitted-coordinate", "geom.percent-coordinate", "ref.none", "use.dotted-id", "text.xy-list", "text.xy-length", "transform.space-before-paren", "root.attrs", "use.external-href", "use.xlink-href", "use.circle-target", "use.symbol", "href.xlink", "path.compact-arc-flags", "list.sign-separated", "transform.no-separator", "num.many-decimals", "num.exponent", "num.plus-sign", "num.leading-dot", "num.trailing-dot", "text.textPath", "text.tspan-mixed", "text.tspans", "text.dx-list", "foreignObject", "nested-svg", "switch", "animate-child", "style.cdata", "line.omitted-coordinates", "rect.corner-radius", "length.unit-with-number-forms", "length.unit", "length.percent", "path.arcs", "path.curves", "attr.path", "attr.points", "attr.transform"];
             let f = ORDER.iter().find(|o| c.features.iter().any(|f| f == *o)).copied().unwrap_or("plain");
             format!("c04:{clause}:{f}")
         };
